@@ -372,7 +372,7 @@ def _closure_root(body, local):
                 return None, None
         if len(defs) != 1 or defs[0]['rv']['k'] != 'use':
             return None, None
-        src = defs[0]['rv']['op'].get('move')
+        src = defs[0]['rv']['op'].get('move') or defs[0]['rv']['op'].get('copy')      # a closure that only captures references is Copy
         if src is None or src['p']:
             return None, None
         local = src['l']
@@ -855,7 +855,7 @@ def desugar_adaptors(body, crate, max_rounds=16):
             cp = t['args'][1].get('move') or t['args'][1].get('copy')
             if cp is None or cp['p']:
                 continue
-            path = _closure_of(cur, cp['l'])
+            path = _closure_of(cur, cp['l']) or _closure_root(cur, cp['l'])[0]      # `let p = |x| ..; it.any(p)`: a named predicate
             cb = crate.body(path) if path else None
             if cb is None or cb.arg_count != 2 or cb.j.get('ret_ty', 'bool') not in ('bool',):
                 continue
